@@ -285,7 +285,6 @@ def confirm(ctx, m, info, cfg, sig, text, mdl):
 SZ = 96
 def native_run(ctx, m, info, cfg, cs, rng):
     lib = core.native(ctx.bdir, cfg)
-    if lib is None: return None
     n = info['n']; U = ctypes.c_uint64
     def stride_for(r, key):
         if r.stride is None: return None
@@ -349,12 +348,27 @@ def native_run(ctx, m, info, cfg, cs, rng):
         if ax.kind == 'planar3':
             for i in range(3): args[ax.names[i]] = ('byval', [[(B[k][0] + B[k][1]) % P, (B[k][0] + B[k][2]) % P, (B[k][1] + B[k][2]) % P][i] for k in range(n)])
         else: args[ax.names[0]] = kern.u64buf([(B[0][0] + B[0][1]) % P, (B[0][0] + B[0][2]) % P, (B[0][1] + B[0][2]) % P])
-    if any(isinstance(v, tuple) for v in args.values()):
-        return None      # by-value vector arguments cannot be passed through ctypes: replay is interpreter-only for these overloads
-    f = getattr(lib, m['mangled']); f.restype = None
-    argv = [args[nm] for nm, ty in info['params']]
     snap = {g: list(b) for g, b in bufs.items() if g in ('a', 'b') and not isinstance(b, list)}
-    f(*argv)
+    how = 'native'
+    if any(isinstance(v, tuple) for v in args.values()) or lib is None:
+        # by-value vector arguments cannot be passed through ctypes (or no AVX512 CPU): concrete re-execution in the interpreter
+        how = 'interpreter (concrete)'
+        w = core.world(ctx.bdir, ['cen_' + cfg, 'gbf_' + cfg]); w.reset(); w.hooks = dict(w.base_hooks); it = Interp(w)
+        objmap = {}; iargs = []
+        for nm, ty in info['params']:
+            v = args[nm]
+            if isinstance(v, tuple): iargs.append(list(v[1]))
+            elif isinstance(v, (ctypes.c_uint64, ctypes.c_uint32)): iargs.append(v.value)
+            else:
+                o = core.obj_words(nm, [int(x) for x in v], 64); objmap[nm] = (o, v); iargs.append(Ptr(o, 0))
+        it.call('@' + m['mangled'], iargs)
+        for nm, (o, v) in objmap.items():
+            for i in range(len(v)):
+                c = o.cells.get(i)
+                if is_c(c): v[i] = c
+    else:
+        f = getattr(lib, m['mangled']); f.restype = None
+        f(*[args[nm] for nm, ty in info['params']])
     # expected
     class PyRun: pass
     pr = Run.__new__(Run); pr.info = info; pr.n = n
@@ -377,7 +391,7 @@ def native_run(ctx, m, info, cfg, cs, rng):
     for g, s0 in snap.items():
         if list(bufs[g]) != s0: det = det or 'input array %s was modified' % g
     rep = dict(mangled=m['mangled'], cfg=cfg, strides={k: (list(v[1]) if v and v[0] == 'list' else (v[1] if v else None)) for k, v in strides.items()})
-    return (det is not None, det or 'agrees', rep)
+    return (det is not None, (det or 'agrees') + ' [%s]' % how, rep)
 
 UNCOVERED = []
 def obligations_for(ctx, cls):
